@@ -139,9 +139,10 @@ class ModelElement(ABC):
 
     @name.setter
     def name(self, value: str):
-        self._name = value
         if self.__dict__.get('topo', None) is not None:
             self.set_property('name', value)
+        # remember the name only once it was accepted
+        self._name = value
 
     @property
     def capacities(self):
